@@ -274,9 +274,10 @@ def evaluate(case, env):
                     continue
                 if _inside_fstring(tf, start):
                     continue
-                if "\n" in seg and not check_chars:
-                    # a chain continued on the next line inside brackets is found through real_code's bracket counting,
-                    # which the unbalanced f-string of this text has thrown off (recorded finding, same root cause)
+                if not check_chars and ("\n" in seg or start > min(a_ for a_, b_, k_ in tf.spans if k_ == "fstr" and _bracket_balance(src[a_:b_]))):
+                    # real_code counts the characters of f-strings as brackets (recorded finding): after an f-string with
+                    # unbalanced bracket characters every line break looks like one inside brackets, so a chain continued
+                    # on the next line, or any chain further down, is searched across line ends
                     continue
                 for o in range(start, end):
                     p = w.get_primary_at(o)
@@ -317,6 +318,25 @@ def _nearest_block_start_poisoned(lines, L, poisoned):
     d = _indent(lines[L - 1])
     for i in range(L, 0, -1):
         if _BLOCK_START.match(lines[i - 1]) and _indent(lines[i - 1]) <= d:
+            st_ = lines[i - 1].lstrip()
+            if (i > 1 and st_.startswith("if")) or st_.startswith("for"):
+                # the "approximate block start" search takes an if/for line for part of a comprehension when a naive
+                # bracket count over the next lines (quotes not considered) goes negative, and keeps searching upwards
+                bracs = 0
+                for j in range(i, min(i + 5, len(lines) + 1)):
+                    for c in lines[j - 1]:
+                        if c == "#":
+                            break
+                        if c in "[(":
+                            bracs += 1
+                        if c in ")]":
+                            bracs -= 1
+                        if bracs < 0:
+                            break
+                    if bracs < 0:
+                        break
+                if bracs < 0:
+                    continue
             if i in poisoned:
                 return True
             break
